@@ -448,6 +448,12 @@ def reset_fn_ok(P, C):
     C.rule("TS-6", "storage that can be stored while ndim is 0 (auxiliary keys) is released regardless of ndim", floor=1)
     C.ob("TS-6", RESET_FN, "aux-independent-of-ndim", "aux" not in cond_ndim, f.where(),
          "the release of aux is not conditional on ndim (write_key works on an empty table)")
+    # ... and there is no way out of the routine that skips a release: every release and every reset store is executed on every path
+    early = [i for i in f.walk() if f.k(i) in ("ReturnStmt", "GotoStmt", "CXXThrowExpr")]
+    C.ob("TS-6", RESET_FN, "no-early-exit", not early, f.loc(early[0]) if early else f.where(),
+         "the release routine has a single exit at its end" if not early else
+         "the release routine can leave early (%s at %s): whatever it has not released by then is leaked — keys written to a table that has no "
+         "spline yet (ndim == 0) are such storage" % (f.k(early[0]), f.loc(early[0])))
     return f, deallocs
 
 
@@ -963,4 +969,65 @@ def ts4c(P, C):
                  "allocate<char>(%r) for %s: terminator stored at %s; full-length copies: %d" %
                  (N, tgt, [repr(idx) for (_j, idx) in texts] or "-", len(full_copy)) +
                  ("" if ok else " — on some path the string is shorter than the allocation, so clear() hands the allocator a smaller size than it was asked for"))
+    return n
+
+
+def ts7(P, C, floor=3):
+    """TS-7: a member that has been handed back to the allocator is nulled or re-pointed before anything can raise."""
+    C.rule("TS-7", "after deallocate(member, ...) the member is assigned (null or its replacement) before the next element that may raise: while "
+           "it still holds the released pointer, a cleanup guard or handler that calls clear() would release it a second time, and without "
+           "one the table would be left with a dangling pointer", floor=floor)
+    mt = P.maythrow()
+    n = 0
+    for f in sorted(mutators(P), key=lambda g: (g.file, g.line)):
+        if f.name == RESET_FN or f.name.startswith("~"):
+            continue
+        rel = [i for i, cal in f.calls() if cal and cal["name"] == "deallocate" and f.args(i) and root_member(f, f.args(i)[0]) and root_member(f, f.args(i)[0])[2] == "this"]
+        if not rel:
+            continue
+
+        def key_of(i):
+            r = root_member(f, i)
+            j = f.strip(i)
+            while f.k(j) == "BinaryOperator" and f.nodes[j]["op"] in ("+", "-"):      # allocate(...) + offset is released as pointer - offset
+                j = f.strip(f.nodes[j]["ch"][0])
+            return (r[0], f.render(j).replace("this->", "").replace(" ", "")) if r else None
+
+        def transfer(st, e, b, j):
+            if e.get("kind") != "stmt":
+                return st
+            i = e["n"]
+            cal = f.nodes[i].get("callee")
+            if cal and cal["name"] == "deallocate" and f.args(i):
+                k = key_of(f.args(i)[0])
+                if k and root_member(f, f.args(i)[0])[2] == "this":
+                    return st | {(k[0], k[1], f.loc(i))}
+            ap = assign_parts(f, i)
+            if ap and f.nodes[i].get("op", "=") == "=":
+                k = key_of(ap[0])
+                if k:
+                    # assigning the member itself, or the array that contains the released element
+                    return frozenset(t for t in st if not (t[1] == k[1] or (t[0] == k[0] and t[1].startswith(k[1]))))
+            return st
+        IN, OUT = core.dataflow(f, frozenset(), transfer, lambda a, b: a | b)
+        bad = []
+        for b, blk in f.blocks.items():
+            if b not in IN:
+                continue
+            st = IN[b]
+            for j, e in enumerate(blk["elems"]):
+                if e.get("kind") == "stmt" and st:
+                    i = e["n"]
+                    cal = f.nodes[i].get("callee")
+                    is_rel = bool(cal and cal["name"] == "deallocate")
+                    if not is_rel and P.node_may_throw(f, i, mt) and not P.contained(f, i, mt):
+                        # elements released inside a loop and re-pointed after the whole array was dropped are covered by the array's own entry
+                        bad.append((i, sorted(st)[0]))
+                st = transfer(st, e, b, j)
+        n += 1
+        seen = set()
+        bad = [x for x in bad if not (str(f.nodes[x[0]]["loc"]) in seen or seen.add(str(f.nodes[x[0]]["loc"])))]
+        C.ob("TS-7", fshort(f), "released-member-repointed", not bad, f.loc(bad[0][0]) if bad else f.where(),
+             ("%d release(s) of member storage, each followed by an assignment to the member before anything can raise" % len(rel)) if not bad else
+             "%s at %s may raise while %s still holds the pointer released at %s" % (f.k(bad[0][0]), f.loc(bad[0][0]), bad[0][1][1], bad[0][1][2]))
     return n
